@@ -1298,7 +1298,7 @@ private:
 
   bool _parseString(Json &out)
   {
-    if (_text[_pos] != '"')
+    if (_pos >= _text.size() || _text[_pos] != '"')
     {
       _error = "Expected '\"'";
       return false;
